@@ -6,6 +6,8 @@ mod c10;
 mod c13;
 mod ser;
 mod lay;
+mod kan;
+mod kall;
 mod c04;
 mod c05;
 mod lall;
@@ -32,6 +34,7 @@ fn main() {
                 "C13" => c13::gen(tier, seed),
                 "C04" => c04::gen(tier, seed),
                 "LALL" => lall::gen(tier, seed),
+                "KALL" => kall::gen(tier, seed),
                 "C05" => c05::gen(tier, seed),
                 _ => {
                     eprintln!("unknown property {prop}");
@@ -55,6 +58,7 @@ fn main() {
                 let p = prop.to_string();
                 let res = std::panic::catch_unwind(move || match p.as_str() {
                     "C10" => c10::eval(&l2),
+                    "KALL" | "C01" | "C02" | "C07" | "C14" | "C18" => kan::eval(&l2),
                     "C13" => c13::eval(&l2),
                     "C04" | "LALL" | "C05" | "C06" | "C17" | "C08" | "C09" => lay::eval(&l2),
                     _ => "bad-prop".to_string(),
@@ -88,6 +92,7 @@ fn main() {
                 let l2 = line.clone();
                 let p = prop.to_string();
                 let res = std::panic::catch_unwind(move || match p.as_str() {
+                    "KALL" | "C01" | "C02" | "C07" | "C14" | "C18" => kan::expand(&l2),
                     "C04" | "LALL" | "C05" | "C06" | "C17" | "C08" | "C09" => lay::expand(&l2),
                     _ => l2.clone(),
                 });
